@@ -336,3 +336,20 @@ mutant("c18-flag-without-trailer", "C18", "C18.", FCOMP, "            content_ch
 mutant("c18-hash-changes-drain", "C18", "C18.cfgdiff", DB, "            #[cfg(feature = \"hash\")]\n            self.hash.write(&slice1[..written1]);\n            drain_guard.amount += written1;", "            #[cfg(feature = \"hash\")]\n            self.hash.write(&slice1[..written1]);\n            #[cfg(feature = \"hash\")]\n            let written1 = written1.min(n1);\n            drain_guard.amount += written1;")
 mutant("c18-compress-nostd-blocksize", "C18", "C18.cfgdiff", FCOMP, "                matcher: MatchGeneratorDriver::new(1024 * 128, 1),", "                #[cfg(feature = \"std\")]\n                matcher: MatchGeneratorDriver::new(1024 * 128, 1),\n                #[cfg(not(feature = \"std\"))]\n                matcher: MatchGeneratorDriver::new(1024 * 64, 1),")
 benign("c18-extra-vprintln", "C18", BLKD, "        let btype = self.block_type()?;\n        if let BlockType::Reserved = btype {", "        let btype = self.block_type()?;\n        vprintln!(\"block type read\");\n        if let BlockType::Reserved = btype {")
+
+# ---- C12 / C13 -------------------------------------------------------------------------
+HUFE = "ruzstd/src/huff0/huff0_encoder.rs"
+mutant("c12-enc-dist", "C12", "C12.table.predefined", FSEE, "const OF_DIST: &[i32] = &[\n    1, 1, 1, 1, 1, 1, 2, 2, 2, 1,", "const OF_DIST: &[i32] = &[\n    1, 1, 1, 1, 1, 2, 1, 2, 2, 1,")
+mutant("c12-enc-default-acc", "C12", "C12.table.predefined", FSEE, "    build_table_from_probabilities(OF_DIST, 5)", "    build_table_from_probabilities(OF_DIST, 6)")
+mutant("c12-acc-offset-writer", "C12", "C12.const.agree", FSEE, "        writer.write_bits(self.acc_log() - 5, 4);", "        writer.write_bits(self.acc_log() - 4, 4);")
+mutant("c12-spread-step", "C12", "C12.const.agree", FSEE, "fn next_position(mut p: usize, table_size: usize) -> usize {\n    p += (table_size >> 1) + (table_size >> 3) + 3;", "fn next_position(mut p: usize, table_size: usize) -> usize {\n    p += (table_size >> 1) + (table_size >> 3) + 1;")
+mutant("c12-requested-log-too-big", "C12", "C12.const.agree", COMP, "            sequences.iter().map(|seq| encode_offset(seq.of).0),\n            8,", "            sequences.iter().map(|seq| encode_offset(seq.of).0),\n            9,")
+mutant("c12-min-acc-log", "C12", "C12.const.agree", FSEE, "    let acc_log = (sum.ilog2() as u8 + 1).max(5);", "    let acc_log = (sum.ilog2() as u8 + 1).max(4);")
+mutant("c13-nibble-order-writer", "C13", "C13.layout.weights", HUFE, "                self.writer.write_bits(weight2, 4);\n                self.writer.write_bits(weight1, 4);", "                self.writer.write_bits(weight1, 4);\n                self.writer.write_bits(weight2, 4);")
+mutant("c13-nibble-order-reader", "C13", "C13.layout.weights", HUFD, "                    if idx % 2 == 0 {\n                        self.weights[idx as usize] = weights_raw[idx as usize / 2] >> 4;", "                    if idx % 2 == 1 {\n                        self.weights[idx as usize] = weights_raw[idx as usize / 2] >> 4;")
+mutant("c13-direct-header-offset", "C13", "C13.layout.weights", HUFE, "            self.writer.write_bits(weights.len() as u8 + 127, 8);", "            self.writer.write_bits(weights.len() as u8 + 128, 8);")
+mutant("c13-direct-threshold", "C13", "C13.layout.weights", HUFE, "        if weights.len() > 16 {", "        if weights.len() > 160 {")
+mutant("c13-stream-order", "C13", "C13.layout.streams", HUFE, "        Self::encode_stream(self.table, self.writer, src2);\n        let size2", "        Self::encode_stream(self.table, self.writer, src3);\n        let size2")
+mutant("c13-jump-size-position", "C13", "C13.layout.streams", HUFE, "        self.writer.change_bits(size_idx + 16, size2 as u16, 16);", "        self.writer.change_bits(size_idx + 24, size2 as u16, 16);")
+mutant("c13-depth-guard", "C13", "C13.dom.reject", HUFD, "        if max_bits > MAX_MAX_NUM_BITS {", "        if max_bits > MAX_MAX_NUM_BITS + 2 {")
+mutant("c13-interleave-start", "C13", "C13.layout.weights", HUFD, "                dec1.init_state(&mut br)?;\n                dec2.init_state(&mut br)?;", "                dec2.init_state(&mut br)?;\n                dec1.init_state(&mut br)?;")
